@@ -70,11 +70,10 @@ class TxFetcher:
             except ValueError:
                 raise ValueError(f"unexpected response: {response}")
             tx = Tx.parse(BytesIO(raw), network=network)
-            # make sure the tx we got matches to the hash we requested
-            if tx.segwit:
-                computed = tx.id()
-            else:
-                computed = hash256(raw)[::-1].hex()
+            # make sure the tx we got matches to the hash we requested: the id
+            # of the object we hand back, not a hash of the bytes it was parsed
+            # from (parsing tolerates trailing/missing bytes and long varints)
+            computed = tx.id()
             if computed != tx_id:
                 raise RuntimeError(f"server lied: {computed} vs {tx_id}")
             cls.cache[tx_id] = tx
